@@ -1726,7 +1726,8 @@ def flattened_sum(terms):
             continue
 
         if isinstance(item, Sum):
-            queue += item.children
+            # in place of the nested sum: the order of the terms is kept
+            queue = list(item.children) + queue
         else:
             done.append(item)
 
@@ -1766,7 +1767,8 @@ def flattened_product(terms):
             continue
 
         if isinstance(item, Product):
-            queue += item.children
+            # in place of the nested product: the order of the terms is kept
+            queue = list(item.children) + queue
         else:
             done.append(item)
 
